@@ -11,12 +11,10 @@ def realize : Notation → Spec → Typ → Except Crash Out
   | .phrase => realizePhrase
   | .dep => realizeDep
 
-/-- the declarative linearisation of either notation (`none`: the model raises) -/
+/-- the declarative linearisation of either notation (`none`: the model raises; since 5c3407b/38d9ad6 neither does) -/
 def lin (nt : Notation) (sp : Spec) (ty : Typ) : Option (List Tok) :=
   match nt with
-  | .phrase =>
-    if hasV (clauseWords sp ty) = false ∧ ty.int = some .tag then none
-    else some (linPh (midPh sp ty.pas) ty.int (clauseWords sp ty))
+  | .phrase => some (linPh (midPh sp ty.pas) ty.int (clauseWords sp ty))
   | .dep => linDep sp ty (clauseWords sp ty)
 
 /-- **the model is its declarative linearisation** (both notations): a successful realization has exactly the tokens
@@ -27,19 +25,8 @@ theorem realize_lin (nt : Notation) (sp : Spec) (ty : Typ) :
     | none => realize nt sp ty = .error .attributeError := by
   cases nt with
   | phrase =>
-    unfold lin
-    rcases phrase_nf sp ty with h | ⟨hv, hi, he⟩
-    · have hne : ¬ (hasV (clauseWords sp ty) = false ∧ ty.int = some .tag) := by
-        intro ⟨hv, hi⟩
-        obtain ⟨out, hout, _⟩ := h
-        have := phrase_tag_noV sp ty _ hv hi
-        rw [this] at hout
-        cases hout
-      simp only [hne, if_false]
-      obtain ⟨out, hout, hmain, _⟩ := h
-      exact ⟨out, hout, hmain⟩
-    · simp only [hv, hi, and_self, if_true]
-      exact he
+    obtain ⟨out, hout, hmain, _⟩ := phrase_nf sp ty
+    exact ⟨out, hout, hmain⟩
   | dep =>
     have := dep_nf sp ty
     unfold lin
@@ -55,11 +42,8 @@ theorem lin_words (nt : Notation) (sp : Spec) (ty : Typ) (L : List Tok) (h : lin
   cases nt with
   | phrase =>
     simp only [lin] at h
-    by_cases hc : hasV (clauseWords sp ty) = false ∧ ty.int = some .tag
-    · rw [if_pos hc] at h; cases h
-    · rw [if_neg hc] at h
-      injection h with h; subst h
-      exact wordsOf_linPh _ _ _ (clauseWords_all sp ty)
+    injection h with h; subst h
+    exact wordsOf_linPh _ _ _ (clauseWords_all sp ty)
   | dep => exact wordsOf_linDep sp ty _ L (clauseWords_all sp ty) h
 
 /-- a successful realization and its linearisation -/
